@@ -449,20 +449,19 @@ impl Converse for AdjacencyMap {
     /// The time complexity is `O(v² log v)`, where `v` is the digraph's
     /// order.
     fn converse(&self) -> Self {
-        let order = self.order();
-        let mut vec = vec![BTreeSet::new(); order];
+        let mut arcs = self
+            .arcs
+            .keys()
+            .map(|&u| (u, BTreeSet::new()))
+            .collect::<BTreeMap<_, _>>();
 
         for (u, out_neighbors) in &self.arcs {
             for v in out_neighbors {
-                unsafe {
-                    let _ = vec.get_unchecked_mut(*v).insert(*u);
-                };
+                let _ = arcs.entry(*v).or_default().insert(*u);
             }
         }
 
-        Self {
-            arcs: vec.into_iter().enumerate().collect(),
-        }
+        Self { arcs }
     }
 }
 
